@@ -52,6 +52,8 @@ def lwe_groups(tag, tier='quick'):
     gs = []
     for fn in ['lweClear', 'lweCopy', 'lweNegate', 'lweNoiselessTrivial', 'lweAddTo', 'lweSubTo']:
         gs.append(Group('%s.%s' % (tag, fn), 'c14_lwe.c', 'h_' + fn, extract=[(LF, fn)], enforce=fn, loops=True, replay=('lwe', fn)))
+    gs.append(Group('%s.lwePhase.safety' % tag, 'c14_lwe.c', 'h_lwePhase', extract=[(LF, 'lwePhase')], enforce='lwePhase', loops=True, replay='pairing',
+                    note='memory safety and frame for every n; the value is decided by the bounded pairing check (C03)'))
     # multiply variants: one contract, discharged in slices (coordinate clause / variance clause)
     gs.append(Group(tag + '.lweAddMulTo.coord', 'c14_lwe.c', 'h_lweAddMulTo', extract=[(LF, 'lweAddMulTo')], enforce='lweAddMulTo',
                     loops=True, backend='cvc5', defines={'KNOB_NOVAR': None}, replay=('lwe', 'lweAddMulTo')))
@@ -497,6 +499,10 @@ def c07_groups(tier, tag='C07'):
                     loops=True, defines={'H_BKCREATE': None}))
     gs.append(Group(tag + '.tGswSymEncryptInt', 'c03_encrypt.c', 'h_tGswSymEncryptInt', extract=[(TG, 'tGswSymEncryptInt')], defines={'H_TGSWENC': None}))
     gs.append(Group(tag + '.tGswEncryptZero', 'c03_encrypt.c', 'h_tGswEncryptZero', extract=[(TG, 'tGswEncryptZero')], loops=True, defines={'H_TGSWZERO': None}))
+    for (n_, t_, bb_) in ([(1, 2, 1), (2, 1, 2), (2, 2, 1)] if tier == 'quick' else [(1, 2, 1), (2, 1, 2), (2, 2, 1), (1, 1, 3), (3, 2, 2), (2, 3, 1)]):
+        gs.append(Group('%s.lweCreateKeySwitchKey.bounded.n=%d.t=%d.basebit=%d' % (tag, n_, t_, bb_), 'c03_encrypt.c', 'h_b_createKeySwitchKey',
+                        extract=[(KS, 'lweCreateKeySwitchKey', S_)], defines={'H_KSCREATE': None, 'VERIF_KS_N': n_, 'VERIF_KS_T': t_, 'VERIF_KS_BB': bb_, 'VERIF_ALPHA': '0x1p-15'},
+                        unwind=n_ * t_ * (1 << bb_) + 3, bounded=True, instance={'n': n_, 't': t_, 'basebit': bb_}))
     for A in ['0x1p-25', '7.18e-9']:
         gs.append(Group('%s.tLweSymEncryptZero.alpha=%s' % (tag, A), 'c03_encrypt.c', 'h_tLweSymEncryptZero', extract=[(TL, 'tLweSymEncryptZero')],
                         loops=True, defines={'H_TLWEZERO': None, 'VERIF_ALPHA': A}, instance={'alpha': A}))
@@ -714,7 +720,7 @@ PROPS = {
                        '(moments, uniformity, independence, seeding reproducibility) is statistical and NOT decided.',
         'assumptions': STD_ASSUME + [
             'libstdc++ normal_distribution / uniform_int_distribution / default_random_engine: assumed contract (declared-only draws)',
-            'no moment, tail, balance, independence or re-seeding claim is decided (seed S20 -- a sampler object that keeps a cached draw across a re-seed -- is not detected); bootstrapping-key rows: plumbing down to tLweSymEncryptZero(row, alpha_min of the accumulator parameters); the key-switching-key rows (lweCreateKeySwitchKey: noise vector, recentring, row index) are not under contract yet',
+            'no moment, tail, balance, independence or re-seeding claim is decided (seed S20 -- a sampler object that keeps a cached draw across a re-seed -- is not detected); bootstrapping-key rows: plumbing down to tLweSymEncryptZero(row, alpha_min of the accumulator parameters); key-switching-key rows: bounded stand-in on small shapes (draw count, alpha of the output key, row position, row message); which recentred noise entry goes to which row, and the recentring arithmetic, are not decided (IEEE sums)',
             'the variance annotation alpha^2 is proved for the enumerated alphas (IEEE product, see DESIGN 8.2)',
         ],
         'trusted': [],
